@@ -27,6 +27,25 @@ func newPayloader(code int) rtp.Payloader {
 	if code == 4 {
 		return gatePayloader{}
 	}
+	// op 602 only: the payloaders that carry state from call to call (held parameter sets, picture ids, DONL)
+	switch code {
+	case 5:
+		return &codecs.H264Payloader{}
+	case 6:
+		return &codecs.H264Payloader{DisableStapA: true}
+	case 7:
+		return &codecs.H265Payloader{}
+	case 8:
+		return &codecs.H265Payloader{AddDONL: true, SkipAggregation: true}
+	case 9:
+		return &codecs.VP8Payloader{EnablePictureID: true}
+	case 10:
+		return &codecs.VP9Payloader{FlexibleMode: true, InitialPictureIDFn: func() uint16 { return 32766 }}
+	case 11:
+		return &codecs.VP9Payloader{InitialPictureIDFn: func() uint16 { return 126 }}
+	case 12:
+		return &codecs.AV1Payloader{}
+	}
 	return &codecs.VP8Payloader{}
 }
 
@@ -48,14 +67,16 @@ func (gatePayloader) Payload(mtu uint16, payload []byte) [][]byte {
 // the payloader actually gave the packetizer, whatever room the packetizer chose to offer it (the
 // property bounds the packets by the MTU, it does not say how the budget is computed)
 type recPayloader struct {
-	inner rtp.Payloader
-	last  [][]byte
-	calls int
+	inner   rtp.Payloader
+	last    [][]byte
+	calls   int
+	lastMTU uint16
 }
 
 func (r *recPayloader) Payload(mtu uint16, payload []byte) [][]byte {
 	out := r.inner.Payload(mtu, payload)
 	r.calls++
+	r.lastMTU = mtu
 	r.last = nil
 	for _, f := range out {
 		r.last = append(r.last, append([]byte{}, f...))
@@ -63,12 +84,20 @@ func (r *recPayloader) Payload(mtu uint16, payload []byte) [][]byte {
 	return out
 }
 
-func runPacketizer(toks []Tok) Outcome {
+func runPacketizer(toks []Tok) Outcome { return runPacketizerOp(601, toks) }
+
+// op 602 has the shape of op 601 with a payloader that keeps state between calls (codes 5-12).  The model is
+// parametric in a pure payloader function, so these cases carry no model observable; what is judged is the
+// property's clause on the implementation: a CONTROL instance of the same payloader, fed every payload exactly
+// once with the room the packetizer offered, says which fragments the packets must carry - a packetizer that
+// calls its payloader twice, or not at all, loses held parameter sets or skips picture ids and is seen here.
+func runPacketizerOp(opc int, toks []Tok) Outcome {
 	var o Outcome
 	mtu, pt, ssrc := uint16(tokInt(toks[0])), uint8(tokInt(toks[1])), uint32(tokInt(toks[2]))
 	ts0, seq0, code := uint32(tokInt(toks[3])), uint16(tokInt(toks[4])), int(tokInt(toks[5]))
 	var now int64
 	rec := &recPayloader{inner: newPayloader(code)}
+	control := newPayloader(code)
 	pz := rtp.VerifNewPacketizer(mtu, pt, ssrc, rec, rtp.NewFixedSequencer(seq0), 90000, ts0,
 		func() time.Time { return time.Unix(0, now) })
 	res := VList{}
@@ -98,6 +127,9 @@ func runPacketizer(toks []Tok) Outcome {
 			}
 			if len(payload) > 0 {
 				want := rec.last
+				if opc == 602 && rec.calls > 0 {
+					want = control.Payload(rec.lastMTU, append([]byte{}, payload...))
+				}
 				if len(pk) != len(want) {
 					fail("op %d: %d packets for %d fragments", oi, len(pk), len(want))
 				}
@@ -196,7 +228,40 @@ func runPacketizer(toks []Tok) Outcome {
 		res = append(res, items)
 	}
 	o.Impl = res
+	if opc == 602 {
+		o.Impl = Unit
+	}
 	return o
+}
+
+// statefulInput: an input the payloader of the given code does something with
+func statefulInput(c *RNG, code, budget int) []byte {
+	switch code {
+	case 5, 6:
+		units := genAccessUnit(c, budget)
+		if c.Intn(3) == 0 { // parameter sets alone: held until a later call
+			units = [][]byte{genH264Nal(c, 7, 2+c.Intn(12))}
+			if c.Bool() {
+				units = append(units, genH264Nal(c, 8, 2+c.Intn(6)))
+			}
+		}
+		return annexB(c, units)
+	case 7, 8:
+		var units [][]byte
+		for k, kn := 0, 1+c.Intn(3); k < kn; k++ {
+			units = append(units, genH265Nal(c, c.Pick(3, 5, budget/2, budget-3, budget, 2*budget)))
+		}
+		return annexB(c, units)
+	case 10, 11:
+		return genVp9Frame(c).bytes
+	case 12:
+		b := encodeOBUs(genOBUs(c, budget))
+		if len(b) == 0 {
+			b = []byte{0x32, 0x01, 0xAA}
+		}
+		return b
+	}
+	return c.Bytes(1 + c.Intn(3*budget))
 }
 
 func init() {
@@ -264,8 +329,26 @@ func init() {
 					seq0 = 65536 - 1 - c.Intn(10)
 				}
 				emit(601, TI(int64(mtu)), TI(int64(c.Intn(128))), TI(int64(uint32(c.U64()))), TI(int64(ts0)), TI(int64(seq0)), TI(int64(code)), ops)
+				if i%4 == 0 {
+					// the payloaders that keep state between calls, through the same packetizer (judged by the oracle alone)
+					sc := c.Fork(602)
+					scode := 5 + sc.Intn(8)
+					smtu := sc.Pick(64, 100, 120, 1200, 64+sc.Intn(200))
+					sops := TList{}
+					if sc.Intn(3) == 0 {
+						sops = append(sops, TList{TI(4), TI(int64(sc.Pick(1, 5, 14, 15, 200)))})
+					}
+					for k, kn := 0, 2+sc.Intn(5); k < kn; k++ {
+						if sc.Intn(8) == 0 {
+							sops = append(sops, TList{TI(2), TI(int64(1 + sc.Intn(2)))})
+							continue
+						}
+						sops = append(sops, TList{TI(1), TBytes(statefulInput(sc, scode, smtu-24)), TI(int64(sc.Pick(160, 960, 3000))), TI(genInstant(sc))})
+					}
+					emit(602, TI(int64(smtu)), TI(int64(sc.Intn(128))), TI(int64(uint32(sc.U64()))), TI(int64(uint32(sc.U64()))), TI(int64(65536-3-sc.Intn(4))%65536), TI(int64(scode)), sops)
+				}
 			}
 		},
-		Run: func(op int, toks []Tok) Outcome { return runPacketizer(toks) },
+		Run: func(op int, toks []Tok) Outcome { return runPacketizerOp(op, toks) },
 	})
 }
